@@ -28,8 +28,9 @@ def prepare_unit(unit, extract_fn):
         os.makedirs(root, exist_ok=True)
         if not os.path.isdir(os.path.join(root, 'prelude')):
             shutil.copytree(os.path.join(vlib.VERIF, 'kani_model', 'prelude'), os.path.join(root, 'prelude'))
-        crate = os.path.join(root, unit)
-        shutil.copytree(os.path.join(vlib.VERIF, 'kani_model', unit), crate)
+        # `<unit>:<variant>`: the same harness crate with ANOTHER extraction recipe (its own scratch copy, its own extracted.rs)
+        crate = os.path.join(root, unit.replace(':', '-'))
+        shutil.copytree(os.path.join(vlib.VERIF, 'kani_model', unit.split(':')[0]), crate)
         info = {'crate': crate, 'error': None, 'linemap': [], 'functions': [], 'extracted_lines': []}
         try:
             pieces = extract_fn(vlib.REPO)
@@ -56,7 +57,7 @@ class KModelOb:
         self.weight = weight
 
     def kani_cmd(self, info, playback=False):
-        tdir = os.path.join(vlib.scratch(), 'kt', '%s-%s%s' % (self.unit, self.harness, '-f' if self.rustflags else ''))
+        tdir = os.path.join(vlib.scratch(), 'kt', '%s-%s%s' % (self.unit.replace(':', '-'), self.harness, '-f' if self.rustflags else ''))
         if self.field_sensitivity and 'CBMC array field sensitivity ON' not in ' '.join(self.cuts):
             self.cuts.append('CBMC array field sensitivity ON (CBMC default) for this unit - every other unit runs with --no-array-field-sensitivity')
         cmd = 'cd %s && cargo kani --harness %s --target-dir %s' % (info['crate'], self.harness, tdir)
